@@ -4,7 +4,7 @@
    gives an online, append-only assembler).  Proved for the id-reuse / classification / visibility logic
    of FromPcap (Import.dump, Import.classify, reader stack); the extension property itself is proved for
    no assembler here (UDP: one flow alone, see C05) and is what the correspondence runs check. *)
-From Pk Require Import Import ImportProofs ImportExamples ImportSnapshot ImportSnapshotUdp ImportRestart ImportBatchUdp BuilderOrder Udp UdpInterleave UdpReplay UdpSnapshotValid.
+From Pk Require Import Import ImportProofs ImportExamples ImportSnapshot ImportSnapshotUdp ImportRestart ImportBatchUdp BuilderOrder Udp UdpInterleave UdpReplay UdpSnapshotValid TcpReplayRefuted Attrib.
 From Pk Require Import ImportIndex.
 Require Pk.IndexFormat Pk.IndexFormatWriter Pk.IndexFormatPackets Pk.IndexFormatLookup.
 From Coq Require Import Sorting.Permutation.
@@ -183,6 +183,15 @@ Theorem C08_next_generation_snapshots : forall hashf thr, 1 <= thr -> forall T0 
   exists mid q post, rest0 = mid ++ q :: post /\ Forall (fun p => p_ts p < p_ts q) (pre0 ++ mid) /\
                      s = snap_at (p_ts q) (pre0 ++ mid).
 Proof. exact next_generation_snapshots. Qed.
+
+(* (1f) for the TCP reassembler model the assembler hypothesis is REFUTED on captures with gaps in both directions of one
+   connection: with the snapshot the payload queued behind the two gaps is emitted by one flush (server half first),
+   without it a foreign packet's flush emits the client payload earlier.  Same witness on the code:
+   corpus/C08/kf-double-gap.json (proposed known finding snapshot-changes-flush-order-double-gap). *)
+Theorem C08_replay_hypothesis_tcp_refuted :
+  views (hist ++ newp) None = [[(false, [67]); (true, [83])]] /\
+  views (filter (keepb snapX) (hist ++ newp)) (Some Tsnap) = [[(true, [83]); (false, [67])]].
+Proof. exact replay_ok_tcp_refuted. Qed.
 
 Example C08_valid_udp_instance : valid_udp snap0 [1] F0.
 Proof. exact valid_udp_instance. Qed.
